@@ -483,7 +483,8 @@ class Ctx:
                                    "+ Print Assumptions; coqchk -silent -o in the thorough tier"
                                    % " ".join(vo_targets))
         tb = ["Coq 8.16.1 kernel (coqc); vm_compute used, native_compute not used",
-              "Go->Coq translator /verif/translate (constants/tables/arith in Gen/*.v)",
+              "Go->Coq translator /verif/translate (only where Gen/*.v is in this property's closure: BOLT-3 script "
+              "templates/witness shapes GenScripts.v for C04/C05, lnwire layouts GenWire.v/GenWireSym.v for C10)",
               "correspondence harness (Go test files injected with -overlay) + python driver lib/verif.py",
               "model evaluated inside Coq by vm_compute on the recorded implementation traces"]
         axs = sorted({a for a in asm.values() if a and "Closed under the global context" not in a})
